@@ -22,7 +22,7 @@ RULE = (
 ASSUMPTIONS = ["reference Uhlmann fidelity via eigh (cross-checked against the nuclear-norm formula in the self-test), tolerance 1e-7",
                "inputs that graphiq's own is_density_matrix rejects are counted as rejected_by_precondition (at most a few %)"]
 REQUIRED_CLASSES = {"pairs": ["mixed-mixed", "pure-mixed", "pure-pure", "equal", "orthogonal", "low_rank", "almost_pure_band"],
-                    "ptrace": ["qutrit", "entangled", "middle_subset"], "metric": ["state_graph", "state_not_graph"]}
+                    "ptrace": ["qutrit", "entangled", "middle_subset", "keep_not_ascending"], "metric": ["state_graph", "state_not_graph"]}
 
 TOL = 1e-7
 
@@ -159,8 +159,13 @@ def check_ptrace(case, sub="ptrace"):
     dims = case["dims"]
     D = int(np.prod(dims))
     rho = make_dm(case["a"], D)
-    keep = sorted(set(k % len(dims) for k in case["keep"]))
+    given = []
+    for k in case["keep"]:
+        if k % len(dims) not in given:
+            given.append(k % len(dims))
+    keep = sorted(given)
     want = sv.partial_trace_textbook(rho, keep, dims)
+    cl = []
     r0 = rho.copy()
     got = guarded(sub, "plain", dmf.partial_trace, rho, keep, dims)
     if not np.array_equal(rho, r0):
@@ -169,7 +174,18 @@ def check_ptrace(case, sub="ptrace"):
     if got.shape != want.shape or np.linalg.norm(got - want) > 1e-9:
         raise Violation(sub, "partial-trace", "partial_trace", "plain",
                         "keep %s of dims %s: differs from the textbook reduced state (trace %r)" % (keep, dims, complex(np.trace(got))))
-    cl = []
+    if given != keep:
+        # the kept subsystems listed in another order: the reduced state of that subset, with the subsystems either in
+        # ascending order (what graphiq does) or in the order listed
+        cl.append("keep_not_ascending")
+        kd = [dims[i] for i in keep]
+        perm = [keep.index(i) for i in given]
+        t = want.reshape(kd + kd).transpose(perm + [len(kd) + x for x in perm])
+        want_given = t.reshape(want.shape)
+        got2 = np.asarray(guarded(sub, "unordered_keep", dmf.partial_trace, rho, list(given), dims))
+        if got2.shape != want.shape or min(np.linalg.norm(got2 - want), np.linalg.norm(got2 - want_given)) > 1e-9:
+            raise Violation(sub, "partial-trace", "partial_trace", "unordered_keep",
+                            "keep %s of dims %s: not the reduced state of that subset in either order" % (given, dims))
     if any(x == 3 for x in dims):
         cl.append("qutrit")
     if case["a"][0] != "diag":
